@@ -966,7 +966,9 @@ class TOTP:
         if isinstance(time, int):
             return time
         if isinstance(time, float):
-            return int(time)
+            # NOTE: floor, not truncation: a fractional time just before the epoch belongs to the second before it
+            #       (int(-0.5) == 0 put it into the first period after the epoch)
+            return math.floor(time)
         if time is None:
             return int(cls.now())
         if hasattr(time, "utctimetuple"):
